@@ -293,6 +293,13 @@ int64_t cmb_resource_preempt(struct cmb_resource *rp)
         /* Kick it out. No record_sample needed, the resource remains occupied. */
         cmi_process_remove_holdable(victim, hrp);
         rp->holder = NULL;
+
+        /*
+         * Whatever the victim is waiting for, or has been woken for already in
+         * this instant, must not get to it before the notice does: it would
+         * carry on as the holder and release the resource under our feet.
+         */
+        cmi_process_cancel_awaiteds(victim);
         (void)cmb_event_schedule(wakeup_event_preempt,
                                  (void *)victim,
                                  (void *)CMB_PROCESS_PREEMPTED,
